@@ -36,7 +36,11 @@ func TestVerifC05SendClient(t *testing.T) {
 		if err != nil {
 			t.Fatal(err)
 		}
-		c05sRun(raw, io, func(_ int, data []byte, addr string) error { return hc.Send(data, addr) }, res)
+		run := c05sRun
+		if c.K == "sendlong" {
+			run = c05sRunLong // one history of > 65536 fragmented sends on this one session
+		}
+		run(raw, io, func(_ int, data []byte, addr string) error { return hc.Send(data, addr) }, res)
 		_ = hc.Close()
 		close(io.block)
 		out.Emit(res)
